@@ -68,11 +68,6 @@ var gfSpecs = []gfSpec{
 	{Pkg: "./pkg/core/native", Recv: "Policy", Func: "setMaxValidUntilBlockIncrement", Lean: "policySetMaxVUBIncrement", Sink: "setIntWithKey"},
 	{Pkg: "./pkg/core/native", Recv: "Policy", Func: "setMillisecondsPerBlock", Lean: "policySetMillisecondsPerBlock", Sink: "setIntWithKey"},
 	{Pkg: "./pkg/core/native", Recv: "Policy", Func: "setMaxTraceableBlocks", Lean: "policySetMaxTraceableBlocks", Sink: "setIntWithKey"},
-	{Pkg: "./pkg/core/native", Recv: "Notary", Func: "setMaxNotValidBeforeDelta", Lean: "notarySetMaxNotValidBeforeDelta", Sink: "setIntWithKey"},
-	{Pkg: "./pkg/core/native", Recv: "Oracle", Func: "setPrice", Lean: "oracleSetPrice", Sink: "setIntWithKey"},
-	{Pkg: "./pkg/core/native", Recv: "NEO", Func: "setRegisterPrice", Lean: "neoSetRegisterPrice", Sink: "setIntWithKey"},
-	{Pkg: "./pkg/core/native", Recv: "NEO", Func: "SetGASPerBlock", Lean: "neoSetGASPerBlock", Sink: "n.putGASRecord"},
-	{Pkg: "./pkg/core/native", Recv: "Management", Func: "setMinimumDeploymentFee", Lean: "managementSetMinimumDeploymentFee", Sink: "ic.DAO.PutStorageItem"},
 	{Pkg: "./pkg/io", Recv: "BinReader", Func: "ReadVarUint", Lean: "readVarUint"},
 	{Pkg: "./pkg/compiler", Func: "toShortForm", Lean: "compilerToShortForm"},
 	{Pkg: "./pkg/compiler", Func: "negateJmp", Lean: "compilerNegateJmp"},
